@@ -17,10 +17,15 @@
 (*     giving up (drops the backlog, dispatch_error), deduplication of a     *)
 (*     repeated request datagram (stored ACK replayed).                      *)
 (* One action per event-loop callback chain that runs without virtual time   *)
-(* passing.  Observer o is endpoint o with one token.  The environment: the  *)
-(* observers (register, re-register, deregister, duplicate datagram, ACK,    *)
-(* RST, silence), the application (bursts of state changes, plain /          *)
-(* explicit / unsuccessful / last), ICMP errors, shutdown, the clock.        *)
+(* passing.  Observer o has token Tok(o) and sits on endpoint Rem(o): its    *)
+(* own endpoint o, or -- SharedEndpoint = TRUE -- endpoint 1 for all of     *)
+(* them (several registrations of one endpoint on different tokens: they    *)
+(* share the exchange, the backlog, the time-out and the transport error,   *)
+(* but not Reset, re-registration or the queued responses of each other).   *)
+(* The environment: the observers (register, re-register, deregister,       *)
+(* duplicate datagram, unrelated request on a fresh token, ACK, RST,        *)
+(* silence), the application (bursts of state changes, plain / explicit /   *)
+(* unsuccessful / last), ICMP errors, shutdown, the clock.                  *)
 (*                                                                          *)
 (* Rendering a notification is two steps when SlowRender is TRUE: the       *)
 (* renderer samples the state (event "render") and suspends; Release lets   *)
@@ -33,32 +38,38 @@
 (* DropQueuedOnStop tells which version of the code is modelled: FALSE is    *)
 (* the pinned tree, where notifications waiting in the backlog survive the   *)
 (* end of their registration (TLC finds C08_SilentAfterEnd false); TRUE is   *)
-(* the repaired design.                                                      *)
+(* the repaired design.  BacklogCap > 0 is another known-bad variant: a      *)
+(* bounded backlog that drops the NEWEST notification when it is full (TLC  *)
+(* must find C08_LatestEventuallySent false); 0 = unbounded, the code.      *)
 EXTENDS ObserveServerObs, TLC
 
 CONSTANTS NObservers, MaxChanges, MaxEnv, MaxSilence, AckTimeout, MaxTime, DropQueuedOnStop,
           SlowRender,     \* TRUE: the renderer of a notification suspends after sampling the state
-          RearmBeforeRender  \* TRUE: the code (the trigger slot is re-armed before render() is awaited);
+          RearmBeforeRender, \* TRUE: the code (the trigger slot is re-armed before render() is awaited);
                              \* FALSE: re-armed after it -- a trigger that lands during the rendering is
                              \* overwritten and forgotten (known-bad variant: TLC must find
                              \* C08_LatestEventuallySent false, which shows that the window is explored)
+          SharedEndpoint, \* TRUE: all observers are tokens of endpoint 1
+          BacklogCap      \* 0: unbounded (the code); n > 0: known-bad variant, see above
 
 Observers == 1..NObservers
+Rem(o) == IF SharedEndpoint THEN 1 ELSE o
+Remotes == {Rem(o) : o \in Observers}
 Tok(o) == CASE o = 1 -> "a1" [] o = 2 -> "a2" [] OTHER -> "a3"
 Mid0 == 100                      \* the server's first message ID
-ReqMid(o, k) == 1000 * o + k     \* the k-th request datagram of observer o
+ReqMid(r, k) == 1000 * r + k     \* the k-th request datagram of endpoint r
 
 VARIABLES now,
           chg,      \* state changes so far = the resource's state number
           nreg,     \* registrations accepted so far
           reg,      \* o -> running render task of the registration: [g, num (next_observation_number), late, con]
-          ex,       \* o -> open CON exchange with that remote (_active_exchanges + retransmission timer)
-          bl,       \* o -> _backlogs[remote]: notifications waiting behind the open exchange
+          ex,       \* r -> open CON exchange with that remote (_active_exchanges + retransmission timer)
+          bl,       \* r -> _backlogs[remote]: notifications waiting behind the open exchange
           nextMid,  \* MessageManager.message_id
-          pmid,     \* o -> request datagrams sent by observer o
+          pmid,     \* r -> request datagrams sent by endpoint r
           lastReq,  \* o -> last request datagram and the reply stored for its duplicates (_recent_messages)
-          nsent,    \* o -> distinct separate (CON/NON) responses put on the wire for o
-          lastNon,  \* o -> [idx, mid] of the last NON notification (target of an unjudged Reset)
+          nsent,    \* r -> distinct separate (CON/NON) responses put on the wire for r
+          lastNon,  \* r -> [idx, mid] of the last NON notification (target of an unjudged Reset)
           rs,       \* o -> suspended render of the task: [on, st (the state it sampled)]
           slot,     \* o -> servobs._trigger while the task is busy rendering: [full, v (the latest trigger value)]
           shut, fin, benv, bsil, emit, obs
@@ -66,7 +77,7 @@ VARIABLES now,
 vars == <<now, chg, nreg, reg, ex, bl, nextMid, pmid, lastReq, nsent, lastNon, rs, slot, shut, fin, benv, bsil, emit, obs>>
 
 NoReg == [g |-> 0, num |-> 0, late |-> FALSE, con |-> FALSE]
-NoNtf == [g |-> 0, ty |-> "", mid |-> 0, code |-> 0, ob |-> -1, st |-> -1, x |-> ""]
+NoNtf == [o |-> 0, g |-> 0, ty |-> "", mid |-> 0, code |-> 0, ob |-> -1, st |-> -1, x |-> ""]
 NoEx == [on |-> FALSE, due |-> 0, retr |-> 0, tmo |-> 0, n |-> NoNtf, idx |-> 0]
 NoRs == [on |-> FALSE, st |-> 0]
 NoVal == [kind |-> "", code |-> 0, st |-> 0]
@@ -79,30 +90,38 @@ EvAt(t, k, r, ty, mid, tok, cls, code, ob, st, g, n, x) ==
 Ev(k, r, ty, mid, tok, cls, code, ob, st, g, n, x) == EvAt(now, k, r, ty, mid, tok, cls, code, ob, st, g, n, x)
 Plain(k, r, tok, st, g, n, x) == Ev(k, r, "", 0, tok, "", 0, -1, st, g, n, x)
 
-TxNtf(o, n) == Ev("tx", o, n.ty, n.mid, Tok(o), "resp", n.code, n.ob, n.st, n.g, 0, n.x)
+TxNtf(n) == Ev("tx", Rem(n.o), n.ty, n.mid, Tok(n.o), "resp", n.code, n.ob, n.st, n.g, 0, n.x)
 \* the finally clause of the render task: cancellation callback -> _observations.remove, update_observation_count
-StopEvs(o, g, c) == <<Plain("cancelcb", o, Tok(o), -1, g, 0, ""), Plain("obscount", 0, "", -1, 0, c - 1, "")>>
+StopEvs(o, g, c) == <<Plain("cancelcb", Rem(o), Tok(o), -1, g, 0, ""), Plain("obscount", 0, "", -1, 0, c - 1, "")>>
 
 Count(rg) == Cardinality({o \in Observers : rg[o].g # 0})
 Drop(q, g) == SelectSeq(q, LAMBDA n : n.g # g)
 Step(es) == /\ emit' = es /\ obs' = ObsFold(obs, es)
 
+\* the running tasks of the observers in S are stopped one after the other (dispatch_error, shutdown)
+RECURSIVE StopSet(_, _, _, _)
+StopSet(o, S, rg, c) == IF o > NObservers THEN << >>
+                        ELSE IF o \notin S \/ rg[o].g = 0 THEN StopSet(o + 1, S, rg, c)
+                        ELSE StopEvs(o, rg[o].g, c) \o StopSet(o + 1, S, rg, c - 1)
+On(r) == {o \in Observers : Rem(o) = r}
+
 Init == /\ now = 0 /\ chg = 0 /\ nreg = 0
-        /\ reg = [o \in Observers |-> NoReg] /\ ex = [o \in Observers |-> NoEx] /\ bl = [o \in Observers |-> << >>]
-        /\ nextMid = Mid0 /\ pmid = [o \in Observers |-> 0]
+        /\ reg = [o \in Observers |-> NoReg] /\ ex = [r \in Remotes |-> NoEx] /\ bl = [r \in Remotes |-> << >>]
+        /\ nextMid = Mid0 /\ pmid = [r \in Remotes |-> 0]
         /\ lastReq = [o \in Observers |-> [rx |-> << >>, reply |-> << >>]]
-        /\ nsent = [o \in Observers |-> 0] /\ lastNon = [o \in Observers |-> [idx |-> 0, mid |-> 0]]
+        /\ nsent = [r \in Remotes |-> 0] /\ lastNon = [r \in Remotes |-> [idx |-> 0, mid |-> 0]]
         /\ rs = [o \in Observers |-> NoRs] /\ slot = [o \in Observers |-> NoSlot]
         /\ shut = FALSE /\ fin = FALSE /\ benv = MaxEnv /\ bsil = MaxSilence
         /\ emit = << >> /\ obs = ObsInit
 
-TimerDue == \E o \in Observers : ex[o].on /\ ex[o].due <= now
+TimerDue == \E r \in Remotes : ex[r].on /\ ex[r].due <= now
 
 (* -- a new request datagram of observer o on its token ---------------------- *)
 (*    kind "reg": GET Observe=0;  "dereg": GET Observe=1;  "plain": GET        *)
 Request(o, ty, kind) ==
   /\ ~shut /\ ~fin /\ benv > 0
-  /\ LET mid == ReqMid(o, pmid[o])
+  /\ LET r == Rem(o)
+         mid == ReqMid(r, pmid[r])
          ob == CASE kind = "reg" -> 0 [] kind = "dereg" -> 1 [] OTHER -> -1
          old == reg[o].g
          c0 == Count(reg)
@@ -110,24 +129,25 @@ Request(o, ty, kind) ==
          g == IF kind = "reg" THEN nreg + 1 ELSE 0
          rty == IF ty = "CON" THEN "ACK" ELSE "NON"         \* immediate response: piggy-backed on the ACK
          rmid == IF ty = "CON" THEN mid ELSE nextMid
-         mk(t) == <<EvAt(t, "rx", o, ty, mid, Tok(o), "req", 1, ob, -1, 0, 0, "obs"),
-                    EvAt(t, "tx", o, rty, rmid, Tok(o), "resp", 69, IF kind = "reg" THEN 0 ELSE -1, chg, g, 0, "S")>>
+         mk(t) == <<EvAt(t, "rx", r, ty, mid, Tok(o), "req", 1, ob, -1, 0, 0, "obs"),
+                    EvAt(t, "tx", r, rty, rmid, Tok(o), "resp", 69, IF kind = "reg" THEN 0 ELSE -1, chg, g, 0, "S")>>
          regEvs == IF kind = "reg"
-                     THEN <<Plain("accept", o, Tok(o), -1, g, c1, ""), Plain("obscount", 0, "", -1, 0, c1 + 1, "")>>
+                     THEN <<Plain("accept", r, Tok(o), -1, g, c1, ""), Plain("obscount", 0, "", -1, 0, c1 + 1, "")>>
                      ELSE << >>
      IN /\ Step(<<mk(now)[1]>>
                 \o (IF old # 0 THEN StopEvs(o, old, c0) ELSE << >>)      \* the overridden pipe's task is cancelled first
                 \o regEvs
-                \o <<Plain("render", o, Tok(o), chg, g, 0, "S"), mk(now)[2]>>)
+                \o <<Plain("render", r, Tok(o), chg, g, 0, "S"), mk(now)[2]>>)
         /\ reg' = [reg EXCEPT ![o] = IF kind = "reg" THEN [g |-> g, num |-> 0, late |-> FALSE, con |-> ty = "CON"] ELSE NoReg]
         /\ nreg' = IF kind = "reg" THEN nreg + 1 ELSE nreg
         /\ nextMid' = IF ty = "CON" THEN nextMid ELSE nextMid + 1
-        /\ nsent' = IF ty = "CON" THEN nsent ELSE [nsent EXCEPT ![o] = @ + 1]
-        /\ lastNon' = IF ty = "CON" THEN lastNon ELSE [lastNon EXCEPT ![o] = [idx |-> nsent[o] + 1, mid |-> nextMid]]
+        /\ nsent' = IF ty = "CON" THEN nsent ELSE [nsent EXCEPT ![r] = @ + 1]
+        /\ lastNon' = IF ty = "CON" THEN lastNon ELSE [lastNon EXCEPT ![r] = [idx |-> nsent[r] + 1, mid |-> nextMid]]
         \* repaired design: responses to an earlier request on the same token that still wait are void
-        /\ bl' = IF DropQueuedOnStop THEN [bl EXCEPT ![o] = << >>] ELSE bl
+        \* (those on the endpoint's other tokens stay)
+        /\ bl' = IF DropQueuedOnStop THEN [bl EXCEPT ![r] = SelectSeq(@, LAMBDA n : n.o # o)] ELSE bl
         /\ lastReq' = [lastReq EXCEPT ![o] = [rx |-> <<mk(0)[1]>>, reply |-> IF ty = "CON" THEN <<mk(0)[2]>> ELSE << >>]]
-        /\ pmid' = [pmid EXCEPT ![o] = @ + 1]
+        /\ pmid' = [pmid EXCEPT ![r] = @ + 1]
         \* a suspended render of the overridden pipe is cancelled with its task (the first rendering of
         \* the new registration is not suspended: its response is the piggy-backed one)
         /\ rs' = [rs EXCEPT ![o] = NoRs] /\ slot' = [slot EXCEPT ![o] = NoSlot]
@@ -142,6 +162,20 @@ DupRequest(o) ==
   /\ benv' = benv - 1
   /\ UNCHANGED <<now, chg, nreg, reg, ex, bl, nextMid, pmid, lastReq, nsent, lastNon, rs, slot, shut, fin, bsil>>
 
+(* -- an unrelated request of endpoint r: plain GET on a fresh token ----------- *)
+(*    (nothing that waits for r is touched by it)                               *)
+Unrelated(r, ty) ==
+  /\ ~shut /\ ~fin /\ benv > 0
+  /\ LET mid == ReqMid(r, pmid[r]) IN
+     Step(<<Ev("rx", r, ty, mid, "c1", "req", 1, -1, -1, 0, 0, "obs"),
+            Plain("render", r, "c1", chg, 0, 0, "S"),
+            Ev("tx", r, IF ty = "CON" THEN "ACK" ELSE "NON", IF ty = "CON" THEN mid ELSE nextMid, "c1", "resp", 69, -1, chg, 0, 0, "S")>>)
+  /\ nextMid' = IF ty = "CON" THEN nextMid ELSE nextMid + 1
+  /\ nsent' = IF ty = "CON" THEN nsent ELSE [nsent EXCEPT ![r] = @ + 1]
+  /\ pmid' = [pmid EXCEPT ![r] = @ + 1]
+  /\ benv' = benv - 1
+  /\ UNCHANGED <<now, chg, nreg, reg, ex, bl, lastReq, lastNon, rs, slot, shut, fin, bsil>>
+
 (* -- a burst of k state changes inside one callback --------------------------- *)
 (*    x = ""       updated_state()                 -> trigger(None)             *)
 (*    x = "ok"     trigger(2.05 explicit)      x = "unsucc"  trigger(4.04)      *)
@@ -150,17 +184,19 @@ DupRequest(o) ==
 \* the task puts one notification on the wire (or into the backlog) and, if it is the last, runs its finally
 Emit(o, acc, kind, code, st, isLast) ==
   LET R == acc.reg[o]
-      n == [g |-> R.g, ty |-> IF R.con THEN "CON" ELSE "NON", mid |-> acc.mid, code |-> code,
+      r == Rem(o)
+      n == [o |-> o, g |-> R.g, ty |-> IF R.con THEN "CON" ELSE "NON", mid |-> acc.mid, code |-> code,
             ob |-> IF isLast THEN -1 ELSE R.num + 1, st |-> st, x |-> kind]
-      queued == R.con /\ acc.ex[o].on           \* NSTART = 1: waits behind the open exchange
-  IN [evs |-> acc.evs \o (IF queued THEN << >> ELSE <<TxNtf(o, n)>>) \o (IF isLast THEN StopEvs(o, R.g, acc.cnt) ELSE << >>),
+      queued == R.con /\ acc.ex[r].on           \* NSTART = 1: waits behind the open exchange
+      full == queued /\ BacklogCap > 0 /\ Len(acc.bl[r]) >= BacklogCap      \* known-bad variant: the newest is dropped
+  IN [evs |-> acc.evs \o (IF queued THEN << >> ELSE <<TxNtf(n)>>) \o (IF isLast THEN StopEvs(o, R.g, acc.cnt) ELSE << >>),
       cnt |-> IF isLast THEN acc.cnt - 1 ELSE acc.cnt,
       mid |-> acc.mid + 1,
       reg |-> [acc.reg EXCEPT ![o] = IF isLast THEN NoReg ELSE [R EXCEPT !.num = R.num + 1]],
-      ex |-> IF queued \/ ~R.con THEN acc.ex ELSE [acc.ex EXCEPT ![o] = NewEx(n, acc.nsent[o] + 1)],
-      bl |-> IF queued THEN [acc.bl EXCEPT ![o] = Append(acc.bl[o], n)] ELSE acc.bl,
-      nsent |-> IF queued THEN acc.nsent ELSE [acc.nsent EXCEPT ![o] = acc.nsent[o] + 1],
-      lastNon |-> IF R.con THEN acc.lastNon ELSE [acc.lastNon EXCEPT ![o] = [idx |-> acc.nsent[o] + 1, mid |-> acc.mid]],
+      ex |-> IF queued \/ ~R.con THEN acc.ex ELSE [acc.ex EXCEPT ![r] = NewEx(n, acc.nsent[r] + 1)],
+      bl |-> IF queued /\ ~full THEN [acc.bl EXCEPT ![r] = Append(acc.bl[r], n)] ELSE acc.bl,
+      nsent |-> IF queued THEN acc.nsent ELSE [acc.nsent EXCEPT ![r] = acc.nsent[r] + 1],
+      lastNon |-> IF R.con THEN acc.lastNon ELSE [acc.lastNon EXCEPT ![r] = [idx |-> acc.nsent[r] + 1, mid |-> acc.mid]],
       rs |-> [acc.rs EXCEPT ![o] = NoRs],
       slot |-> IF isLast THEN [acc.slot EXCEPT ![o] = NoSlot] ELSE acc.slot]
 
@@ -168,7 +204,7 @@ Emit(o, acc, kind, code, st, isLast) ==
 \* is; otherwise the resource is rendered -- at once, or (SlowRender) sampled now and produced at Release
 Serve(o, acc, v, stNow) ==
   LET R == acc.reg[o]
-      rend == <<Plain("render", o, Tok(o), stNow, R.g, 0, "S")>>
+      rend == <<Plain("render", Rem(o), Tok(o), stNow, R.g, 0, "S")>>
   IN IF v.kind = "E" THEN Emit(o, acc, "E", v.code, v.st, R.late \/ v.code = 132)
      ELSE IF SlowRender
        THEN [acc EXCEPT !.evs = acc.evs \o rend, !.rs = [acc.rs EXCEPT ![o] = [on |-> TRUE, st |-> stNow]]]
@@ -185,15 +221,19 @@ ChgOne(o, acc, st1, x) ==
             [acc1 EXCEPT !.slot = [acc.slot EXCEPT ![o] = [full |-> TRUE, v |-> v]]]
        ELSE Serve(o, acc1, v, st1)
 
-RECURSIVE ChgFold(_, _, _, _)
-ChgFold(o, acc, st1, x) == IF o > NObservers THEN acc ELSE ChgFold(o + 1, ChgOne(o, acc, st1, x), st1, x)
+\* the observations are triggered, and their tasks wake, in the order in which they were registered
+RECURSIVE ChgFold(_, _, _, _, _)
+ChgFold(g, rg0, acc, st1, x) ==
+  IF g > nreg THEN acc
+  ELSE LET S == {o \in Observers : rg0[o].g = g} IN
+       ChgFold(g + 1, rg0, IF S = {} THEN acc ELSE ChgOne(CHOOSE o \in S : TRUE, acc, st1, x), st1, x)
 
 Change(k, x) ==
   /\ ~shut /\ ~fin /\ chg + k <= MaxChanges
   /\ LET acc0 == [evs |-> [i \in 1..k |-> Plain("change", 0, "", chg + i, 0, 0, x)],
                   cnt |-> Count(reg), mid |-> nextMid, reg |-> reg, ex |-> ex, bl |-> bl,
                   nsent |-> nsent, lastNon |-> lastNon, rs |-> rs, slot |-> slot]
-         acc == ChgFold(1, acc0, chg + k, x)
+         acc == ChgFold(1, reg, acc0, chg + k, x)
      IN /\ Step(acc.evs)
         /\ reg' = acc.reg /\ ex' = acc.ex /\ bl' = acc.bl /\ nsent' = acc.nsent /\ lastNon' = acc.lastNon
         /\ nextMid' = acc.mid /\ rs' = acc.rs /\ slot' = acc.slot
@@ -205,7 +245,7 @@ Change(k, x) ==
 Release(o) ==
   /\ ~fin /\ rs[o].on
   /\ LET R == reg[o]
-         acc0 == [evs |-> <<Plain("release", o, Tok(o), -1, R.g, 0, "")>>,
+         acc0 == [evs |-> <<Plain("release", Rem(o), Tok(o), -1, R.g, 0, "")>>,
                   cnt |-> Count(reg), mid |-> nextMid, reg |-> reg, ex |-> ex, bl |-> bl,
                   nsent |-> nsent, lastNon |-> lastNon, rs |-> rs, slot |-> slot]
          a1 == Emit(o, acc0, "S", 69, rs[o].st, R.late)          \* is_last is looked at after the rendering
@@ -218,103 +258,107 @@ Release(o) ==
   /\ UNCHANGED <<now, chg, nreg, pmid, lastReq, shut, fin, benv, bsil>>
 
 (* -- _continue_backlog: the next waiting notification goes out ----------------- *)
-Continue(o, pre, post, q) ==
+Continue(r, pre, post, q) ==
   IF q = << >>
-    THEN /\ ex' = [ex EXCEPT ![o] = NoEx] /\ bl' = [bl EXCEPT ![o] = << >>] /\ nsent' = nsent
+    THEN /\ ex' = [ex EXCEPT ![r] = NoEx] /\ bl' = [bl EXCEPT ![r] = << >>] /\ nsent' = nsent
          /\ Step(pre \o post)
-    ELSE /\ ex' = [ex EXCEPT ![o] = NewEx(Head(q), nsent[o] + 1)] /\ bl' = [bl EXCEPT ![o] = Tail(q)]
-         /\ nsent' = [nsent EXCEPT ![o] = @ + 1]
-         /\ Step(pre \o <<TxNtf(o, Head(q))>> \o post)
+    ELSE /\ ex' = [ex EXCEPT ![r] = NewEx(Head(q), nsent[r] + 1)] /\ bl' = [bl EXCEPT ![r] = Tail(q)]
+         /\ nsent' = [nsent EXCEPT ![r] = @ + 1]
+         /\ Step(pre \o <<TxNtf(Head(q))>> \o post)
 
-(* -- the observer acknowledges the open confirmable notification ------------- *)
-Ack(o) ==
-  /\ ~shut /\ ~fin /\ ex[o].on
-  /\ Continue(o, <<Ev("rx", o, "ACK", ex[o].n.mid, "", "empty", 0, -1, -1, 0, ex[o].idx, "")>>, << >>, bl[o])
+(* -- the endpoint acknowledges the open confirmable notification ------------- *)
+Ack(r) ==
+  /\ ~shut /\ ~fin /\ ex[r].on
+  /\ Continue(r, <<Ev("rx", r, "ACK", ex[r].n.mid, "", "empty", 0, -1, -1, 0, ex[r].idx, "")>>, << >>, bl[r])
   /\ UNCHANGED <<now, chg, nreg, reg, nextMid, pmid, lastReq, lastNon, rs, slot, shut, fin, benv, bsil>>
 
 (* -- ... or rejects it: _remove_exchange calls the message-error monitor,      *)
-(*    i.e. the stopper of the pipe that sent it ------------------------------- *)
-Rst(o) ==
-  /\ ~shut /\ ~fin /\ ex[o].on
-  /\ LET g == ex[o].n.g
+(*    i.e. the stopper of the pipe that sent it (and of no other pipe) -------- *)
+Rst(r) ==
+  /\ ~shut /\ ~fin /\ ex[r].on
+  /\ LET g == ex[r].n.g
+         o == ex[r].n.o
          hit == g # 0 /\ reg[o].g = g             \* that pipe is still the running one
-     IN /\ Continue(o, <<Ev("rx", o, "RST", ex[o].n.mid, "", "empty", 0, -1, -1, 0, ex[o].idx, "")>>,
+     IN /\ Continue(r, <<Ev("rx", r, "RST", ex[r].n.mid, "", "empty", 0, -1, -1, 0, ex[r].idx, "")>>,
                     IF hit THEN StopEvs(o, g, Count(reg)) ELSE << >>,
-                    IF DropQueuedOnStop THEN Drop(bl[o], g) ELSE bl[o])
+                    IF DropQueuedOnStop THEN Drop(bl[r], g) ELSE bl[r])
         /\ reg' = IF hit THEN [reg EXCEPT ![o] = NoReg] ELSE reg
         /\ rs' = IF hit THEN [rs EXCEPT ![o] = NoRs] ELSE rs
         /\ slot' = IF hit THEN [slot EXCEPT ![o] = NoSlot] ELSE slot
   /\ UNCHANGED <<now, chg, nreg, nextMid, pmid, lastReq, lastNon, shut, fin, benv, bsil>>
 
 (* -- a Reset answering a NON notification: no exchange, nothing happens ------ *)
-RstNon(o) ==
-  /\ ~shut /\ ~fin /\ benv > 0 /\ lastNon[o].idx # 0
-  /\ Step(<<Ev("rx", o, "RST", lastNon[o].mid, "", "empty", 0, -1, -1, 0, lastNon[o].idx, "")>>)
+RstNon(r) ==
+  /\ ~shut /\ ~fin /\ benv > 0 /\ lastNon[r].idx # 0
+  /\ Step(<<Ev("rx", r, "RST", lastNon[r].mid, "", "empty", 0, -1, -1, 0, lastNon[r].idx, "")>>)
   /\ benv' = benv - 1
   /\ UNCHANGED <<now, chg, nreg, reg, ex, bl, nextMid, pmid, lastReq, nsent, lastNon, rs, slot, shut, fin, bsil>>
 
+\* every pipe of endpoint r is stopped (dispatch_error)
+StopRemote(r, pre) ==
+  /\ Step(pre \o StopSet(1, On(r), reg, Count(reg)))
+  /\ ex' = [ex EXCEPT ![r] = NoEx] /\ bl' = [bl EXCEPT ![r] = << >>]
+  /\ reg' = [o \in Observers |-> IF Rem(o) = r THEN NoReg ELSE reg[o]]
+  /\ rs' = [o \in Observers |-> IF Rem(o) = r THEN NoRs ELSE rs[o]]
+  /\ slot' = [o \in Observers |-> IF Rem(o) = r THEN NoSlot ELSE slot[o]]
+
 (* -- retransmission timer of the open exchange (_retransmit) ------------------ *)
-TimerRetransmit(o) ==
-  /\ ~fin /\ ex[o].on /\ ex[o].due = now
-  /\ LET x == ex[o] IN
+TimerRetransmit(r) ==
+  /\ ~fin /\ ex[r].on /\ ex[r].due = now
+  /\ LET x == ex[r] IN
      IF x.retr < MaxRetransmit
-       THEN /\ Step(<<TxNtf(o, x.n)>>)
-            /\ ex' = [ex EXCEPT ![o] = [x EXCEPT !.retr = x.retr + 1, !.tmo = 2 * x.tmo, !.due = now + 2 * x.tmo]]
+       THEN /\ Step(<<TxNtf(x.n)>>)
+            /\ ex' = [ex EXCEPT ![r] = [x EXCEPT !.retr = x.retr + 1, !.tmo = 2 * x.tmo, !.due = now + 2 * x.tmo]]
             /\ UNCHANGED <<reg, bl, rs, slot>>
        ELSE \* give up: the backlog of the remote is dropped, dispatch_error stops every pipe of the remote
-            /\ Step(IF reg[o].g # 0 THEN StopEvs(o, reg[o].g, Count(reg)) ELSE << >>)
-            /\ ex' = [ex EXCEPT ![o] = NoEx] /\ bl' = [bl EXCEPT ![o] = << >>]
-            /\ reg' = [reg EXCEPT ![o] = NoReg]
-            /\ rs' = [rs EXCEPT ![o] = NoRs] /\ slot' = [slot EXCEPT ![o] = NoSlot]
+            StopRemote(r, << >>)
   /\ bsil' = IF bsil > 0 THEN bsil - 1 ELSE 0
   /\ UNCHANGED <<now, chg, nreg, nextMid, pmid, lastReq, nsent, lastNon, shut, fin, benv>>
 
-(* -- ICMP error reported for remote o (MessageManager.dispatch_error) --------- *)
-Err(o) ==
+(* -- ICMP error reported for remote r (MessageManager.dispatch_error) --------- *)
+Err(r) ==
   /\ ~shut /\ ~fin /\ benv > 0
-  /\ Step(<<Plain("err", o, "", -1, 0, 0, "")>> \o (IF reg[o].g # 0 THEN StopEvs(o, reg[o].g, Count(reg)) ELSE << >>))
-  /\ ex' = [ex EXCEPT ![o] = NoEx] /\ bl' = [bl EXCEPT ![o] = << >>] /\ reg' = [reg EXCEPT ![o] = NoReg]
-  /\ rs' = [rs EXCEPT ![o] = NoRs] /\ slot' = [slot EXCEPT ![o] = NoSlot]
+  /\ StopRemote(r, <<Plain("err", r, "", -1, 0, 0, "")>>)
   /\ benv' = benv - 1
   /\ UNCHANGED <<now, chg, nreg, nextMid, pmid, lastReq, nsent, lastNon, shut, fin, bsil>>
 
 (* -- Context.shutdown: every pipe stopped, every timer cancelled -------------- *)
-RECURSIVE StopAll(_, _, _)
-StopAll(o, rg, c) == IF o > NObservers THEN << >>
-                     ELSE IF rg[o].g = 0 THEN StopAll(o + 1, rg, c)
-                     ELSE StopEvs(o, rg[o].g, c) \o StopAll(o + 1, rg, c - 1)
 Shutdown ==
   /\ ~shut /\ ~fin /\ benv > 0
-  /\ Step(<<Plain("shutdown", 0, "", -1, 0, 0, "")>> \o StopAll(1, reg, Count(reg))
+  /\ Step(<<Plain("shutdown", 0, "", -1, 0, 0, "")>> \o StopSet(1, Observers, reg, Count(reg))
           \o <<Plain("shutdown-done", 0, "", -1, 0, 0, "ok")>>)
   /\ shut' = TRUE
-  /\ reg' = [o \in Observers |-> NoReg] /\ ex' = [o \in Observers |-> NoEx] /\ bl' = [o \in Observers |-> << >>]
+  /\ reg' = [o \in Observers |-> NoReg] /\ ex' = [r \in Remotes |-> NoEx] /\ bl' = [r \in Remotes |-> << >>]
   /\ rs' = [o \in Observers |-> NoRs] /\ slot' = [o \in Observers |-> NoSlot]
   /\ benv' = benv - 1
   /\ UNCHANGED <<now, chg, nreg, nextMid, pmid, lastReq, nsent, lastNon, fin, bsil>>
 
-(* -- the clock: an observer may stay silent across at most MaxSilence timers -- *)
+(* -- the clock: an endpoint may stay silent across at most MaxSilence timers -- *)
 Tick == /\ ~fin /\ ~TimerDue /\ now < MaxTime
-        /\ \E o \in Observers : ex[o].on         \* idle waiting changes nothing: time passes only towards a timer
-        /\ Cardinality({o \in Observers : ex[o].on /\ ex[o].due = now + 1}) <= bsil
+        /\ \E r \in Remotes : ex[r].on           \* idle waiting changes nothing: time passes only towards a timer
+        /\ Cardinality({r \in Remotes : ex[r].on /\ ex[r].due = now + 1}) <= bsil
         /\ now' = now + 1 /\ emit' = << >>
         /\ UNCHANGED <<chg, nreg, reg, ex, bl, nextMid, pmid, lastReq, nsent, lastNon, rs, slot, shut, fin, benv, bsil, obs>>
 
-(* -- quiescence: nothing in flight, no timer armed ---------------------------- *)
-End == /\ ~fin /\ \A o \in Observers : ~ex[o].on /\ ~rs[o].on
+(* -- quiescence: nothing in flight, no timer armed, no rendering suspended ---- *)
+End == /\ ~fin /\ (\A r \in Remotes : ~ex[r].on) /\ (\A o \in Observers : ~rs[o].on)
        /\ Step(<<Plain("end", 0, "", -1, 0, 0, "")>>)
        /\ fin' = TRUE
        /\ UNCHANGED <<now, chg, nreg, reg, ex, bl, nextMid, pmid, lastReq, nsent, lastNon, rs, slot, shut, benv, bsil>>
 
-Next == \/ \E o \in Observers : TimerRetransmit(o)
+Next == \/ \E r \in Remotes : TimerRetransmit(r)
         \* (observers are interchangeable: observer o + 1 does not appear before observer o)
-        \/ (~TimerDue /\ \E o \in Observers, ty \in {"CON", "NON"} : (IF o = 1 THEN TRUE ELSE pmid[o - 1] > 0) /\ Request(o, ty, "reg"))
+        \/ (~TimerDue /\ \E o \in Observers, ty \in {"CON", "NON"} :
+               (IF o = 1 THEN TRUE ELSE lastReq[o - 1].rx # << >>) /\ Request(o, ty, "reg"))
         \/ (~TimerDue /\ \E o \in Observers, ty \in {"CON", "NON"} : reg[o].g # 0 /\ Request(o, ty, "dereg"))
         \/ (~TimerDue /\ \E o \in Observers : DupRequest(o))
+        \* (an unrelated request matters where something of the endpoint waits in the backlog; explored in the
+        \* configurations with several tokens per endpoint)
+        \/ (~TimerDue /\ SharedEndpoint /\ \E r \in Remotes : bl[r] # << >> /\ Unrelated(r, "CON"))
         \/ (~TimerDue /\ \E k \in 1..MaxChanges, x \in {"", "ok", "unsucc", "last"} : Change(k, x))
-        \/ (~TimerDue /\ \E o \in Observers : Ack(o) \/ Rst(o) \/ RstNon(o))
+        \/ (~TimerDue /\ \E r \in Remotes : Ack(r) \/ Rst(r) \/ RstNon(r))
         \/ (~TimerDue /\ \E o \in Observers : Release(o))
-        \/ (~TimerDue /\ \E o \in Observers : Err(o))
+        \/ (~TimerDue /\ \E r \in Remotes : Err(r))
         \/ (~TimerDue /\ Shutdown)
         \/ Tick
         \/ End
